@@ -1,5 +1,11 @@
 package main
 
+import (
+	"math"
+
+	"github.com/evolbioinfo/gotree/tree"
+)
+
 func init() { register("C07", c07) }
 
 // case: ((op collapse_len|collapse_sup|collapse_depth|resolve) (tree T)
@@ -7,6 +13,17 @@ func init() { register("C07", c07) }
 //	(l q) (s q) (min n) (max n) (rr T|F) (rt T|F) (seed n) (nraw n))
 //
 // obs : ((raw (...))? (err msg) (tree T') (audit (...)))
+//
+// Non-finite numbers (outside the rationals of the wire format and of the model):
+//
+//	(nanlen (i ...)) (lenspecial nan|inf|ninf)   the lengths of Edges()[i] are replaced by NaN / +Inf / -Inf
+//	(nansup (i ...)) (supspecial nan|inf|ninf)   same for supports
+//	(lspecial k) / (sspecial k)                  the threshold passed to the code is NaN / +Inf / -Inf
+//
+// before the operation; afterwards the marked branches get their placeholder value back so that
+// the tree can be dumped.  The generator chooses placeholders (and the rational threshold the
+// judge sees) on the same side of the comparison as the non-finite value: NaN <= t and NaN < s
+// are false.
 func c07(c *Sexp) *Sexp {
 	t, err := BuildTree(c.Get("tree"))
 	if err != nil {
@@ -17,12 +34,49 @@ func c07(c *Sexp) *Sexp {
 	}
 	var operr error
 	obs := L()
+	special := func(k string) (float64, bool) {
+		switch k {
+		case "nan":
+			return math.NaN(), true
+		case "inf":
+			return math.Inf(1), true
+		case "ninf":
+			return math.Inf(-1), true
+		}
+		return 0, false
+	}
+	savedLen := map[*tree.Edge]float64{}
+	savedSup := map[*tree.Edge]float64{}
+	edges := t.Edges()
+	if v, ok := special(c.Str("lenspecial")); ok {
+		for _, i := range c.IntList("nanlen") {
+			if i < len(edges) {
+				savedLen[edges[i]] = edges[i].Length()
+				edges[i].SetLength(v)
+			}
+		}
+	}
+	if v, ok := special(c.Str("supspecial")); ok {
+		for _, i := range c.IntList("nansup") {
+			if i < len(edges) {
+				savedSup[edges[i]] = edges[i].Support()
+				edges[i].SetSupport(v)
+			}
+		}
+	}
+	lthr, sthr := c.Float("l"), c.Float("s")
+	if v, ok := special(c.Str("lspecial")); ok {
+		lthr = v
+	}
+	if v, ok := special(c.Str("sspecial")); ok {
+		sthr = v
+	}
 	rr, rt := c.Bool("rr"), c.Bool("rt")
 	switch c.Str("op") {
 	case "collapse_len":
-		t.CollapseShortBranches(c.Float("l"), rr, rt)
+		t.CollapseShortBranches(lthr, rr, rt)
 	case "collapse_sup":
-		t.CollapseLowSupport(c.Float("s"), rr)
+		t.CollapseLowSupport(sthr, rr)
 	case "collapse_depth":
 		operr = t.CollapseTopoDepth(c.Int("min"), c.Int("max"), rr, rt)
 	case "resolve":
@@ -30,6 +84,12 @@ func c07(c *Sexp) *Sexp {
 		t.Resolve()
 	default:
 		return L(KV("panic", A("unknown op")))
+	}
+	for e, v := range savedLen {
+		e.SetLength(v)
+	}
+	for e, v := range savedSup {
+		e.SetSupport(v)
 	}
 	d, audit := ObserveTree(t)
 	obs.List = append(obs.List, KV("err", A(errStr(operr))), KV("tree", d), KV("audit", audit))
